@@ -96,6 +96,14 @@ func runStep(s *pgsess.Session, st Step, name string) (rep *pgsess.Reply, err er
 	}()
 	select {
 	case r := <-done:
+		if r.err != nil && !errors.Is(r.err, pgsess.ErrTimeout) {
+			// the harness closes the connections on the first proxy error, as acra-server does
+			select {
+			case <-s.ProxyErrs:
+				return r.rep, r.err, true
+			case <-time.After(2 * time.Second):
+			}
+		}
 		return r.rep, r.err, false
 	case <-s.ProxyErrs:
 		s.HangUp()
